@@ -74,6 +74,7 @@ type EntryOpts struct {
 	MaxGors  int
 	Params   map[string]int64 // tier-dependent harness parameters (vParam)
 	NoNumStr bool             // compare decimal strings digit by digit (no numeric shortcut)
+	Prepass  bool             // lower-preemption pre-pass of the same entry
 }
 
 type Violation struct {
@@ -86,6 +87,8 @@ type Violation struct {
 	Trail    []int64
 	Observes []string
 	Known    string // known-finding id if any
+	Sched    []schedEv
+	Multi    bool
 }
 
 type InputVal struct {
@@ -151,6 +154,10 @@ type Engine struct {
 	timeLocs  map[string]*Value
 	pathCover map[string]bool
 	onceDone  map[*Value]bool
+	syncMaps  map[*Value]*Map
+	schedLog  []schedEv
+	siteCache map[string]bool
+	pkgDir    string
 	decided   map[*Term]bool
 	concretized map[*Term]*big.Int
 	usedVars  map[string]bool
@@ -683,6 +690,8 @@ func (e *Engine) recordViolation(label, msg, kind, known string) {
 	v.Inputs = e.modelInputs()
 	v.Trail = e.trailVector()
 	v.Observes = append([]string(nil), e.observes...)
+	v.Sched = append([]schedEv(nil), e.schedLog...)
+	v.Multi = e.multi
 	if kind == "known" {
 		if e.stats.KnownSeen == nil {
 			e.stats.KnownSeen = map[string]int{}
@@ -822,6 +831,8 @@ func (e *Engine) resetPath() {
 	e.timeLocs = map[string]*Value{}
 	e.pathCover = map[string]bool{}
 	e.onceDone = map[*Value]bool{}
+	e.syncMaps = map[*Value]*Map{}
+	e.schedLog = nil
 	e.decided = map[*Term]bool{}
 	e.concretized = map[*Term]*big.Int{}
 	e.usedVars = map[string]bool{}
